@@ -253,7 +253,8 @@ def work(args):
     use_kconfig = rng.random() < 0.5
     for role in chosen:
         if use_kconfig and role in CONFIGURABLE and rng.random() < 0.7:
-            v, c = rng.choice(["acme.example", "nordicsemi.com", "vendor ü"]), f"class_{role.lower()}_{rng.randrange(100)}"
+            # names are hashed as written: capitals, mixed case, a trailing dot are different vendors than their lower-case spelling (C07-q)
+            v, c = rng.choice(["acme.example", "nordicsemi.com", "vendor ü", "ACME.Example", "NordicSemi.com", "Acme-IoT.example.", "ÜBER.example"]), f"class_{role.lower()}_{rng.randrange(100)}"
             kconfig_lines.append(f'SB_CONFIG_SUIT_MPI_{CONFIGURABLE[role]}_VENDOR_NAME="{v}"')
             kconfig_lines.append(f'SB_CONFIG_SUIT_MPI_{CONFIGURABLE[role]}_CLASS_NAME="{c}"')
             names[role] = (v, c)
